@@ -65,6 +65,13 @@ fn main() {
             "C08" => c01::replay(c01::Mode::C08, &v),
             "C07" => c07::replay(c07::Mode::C07, &v),
             "C05" => c05::replay(&v),
+            "C09" => c09::replay(c09::Mode::C09, &v),
+            "C12" => c09::replay(c09::Mode::C12, &v),
+            "C14" => c14::replay(c14::Mode::C14, &v),
+            "C15" => c14::replay(c14::Mode::C15, &v),
+            "C16" => c16::replay(&v),
+            "C11" => c11::replay(&v),
+            "C13" => c13::replay(&v),
             "C06" => c06::replay(&v),
             "C04" => c04::replay(&v),
             "C03" => c03::replay(&v),
